@@ -36,15 +36,25 @@
         database (invariant WK), so the checkpoint changes no answer, and with
         nothing left in the log the database file IS the logical database
         (C04_wal_checkpoint_history).
+     8. (round 8) on a replica: along EVERY sequence of transaction files it
+        is sent from an empty node (applied, or refused for not continuing the
+        position; tombstones included) the per-page cache is the database
+        file's and every position it takes carries the from-scratch checksum
+        of its database file (C04_replica_history).
+     9. (round 8) across a restart, from ANY state: if Open succeeds, the
+        position's checksum is the from-scratch checksum of the database file
+        and the cache is the file's (C04_open_recomputes).
    NOT proved (C04_history_partial): the same composition through a
    checkpoint run by SQLite (page writes to the database file in WAL mode and
-   the restart of the log), the way back out of WAL mode, Open and replicated
-   apply; it is re-checked on
+   the restart of the log), the way back out of WAL mode, and a node that
+   changes role or restarts between the histories above (Open re-establishes
+   the per-page agreement, but the journal mode afterwards depends on the
+   newest file's page 1, which the invariants above do not track); it is re-checked on
    every run by the correspondence (the model re-executes every generated
    history and must reproduce every reported position) and by the harness'
    raw-file recomputation. *)
 From Coq Require Import NArith List Bool.
-Require Import LF.Gen.ConstsGen LF.Model.PageDB LF.Proofs.XorLib LF.Proofs.ChecksumProofs LF.Proofs.CaptureProofs LF.Proofs.HistoryProofs LF.Proofs.WalHistoryProofs LF.Proofs.WalCheckpointProofs.
+Require Import LF.Gen.ConstsGen LF.Model.PageDB LF.Proofs.XorLib LF.Proofs.ChecksumProofs LF.Proofs.CaptureProofs LF.Proofs.HistoryProofs LF.Proofs.WalHistoryProofs LF.Proofs.WalCheckpointProofs LF.Proofs.ApplyHistoryProofs LF.Proofs.OpenProofs.
 Import ListNotations.
 Local Open Scope N_scope.
 
@@ -198,3 +208,64 @@ Example C04_wal_checkpoint_history_nonvacuous :
     | None => False
     end.
 Proof. exact wal_ckpt_history_example. Qed.
+
+(* Replicas.  [fs]: any sequence of transaction files sent to a node that starts empty; [wf_file]: page numbers start at 1,
+   no page twice, the TXID is not 0 (what the LTX decoder enforces).  [run_recv] is processLTXStreamFrame: a file that does
+   not continue the position is refused and changes nothing, any other is placed and applied (ApplyLTXNoLock, which
+   verifies the post-apply checksum and exits the process when it differs - such a history has no final state).
+   For EVERY such history: once the replica has a position, the position's checksum is the from-scratch checksum of its
+   database file, and the per-page cache is the file's, page by page. *)
+Theorem C04_replica_history : forall lock fs s',
+  1 <= lock -> Forall wf_file fs -> run_recv (init lock) fs = Some s' ->
+  (txid s' <> 0 -> chk s' = scratch (fun p => if p =? lock then 0 else file_h s' p) (pageN s')) /\
+  (forall p, 1 <= p -> p <> lock -> dbc s' p = file_h s' p) /\ lockpg s' = lock.
+Proof. exact replica_history_checksum. Qed.
+Print Assumptions C04_replica_history.
+
+(* Non-vacuity: the files a primary wrote - create 2 pages; grow to 5 writing only pages 1 and 5; shrink to 3 - and a stray
+   file that does not continue the position *)
+Example C04_replica_history_nonvacuous :
+  let pg h := mkPg (fl h) 0 false in
+  let hs := [HTx [] [AWrite 1 (pg 11); AWrite 2 (pg 12)] 2;
+             HTx [(3, pg 33); (4, pg 44)] [AWrite 1 (pg 21); AWrite 5 (pg 55)] 5;
+             HTx [] [AWrite 2 (pg 92)] 3; HTrunc 3] in
+  exists s1, run_hsteps (init 2097153) hs = Some s1 /\
+    let fs := ltxdir s1 ++ [mkLtx 9 9 0 0 1 []] in
+    Forall wf_file fs /\
+    match run_recv (init 2097153) fs with
+    | Some s' => (txid s', pageN s', chk s' =? chk s1, chk s' =? fl (N.lxor (N.lxor 21 92) 33), lenN (dbfile s')) = (3, 3, true, true, 3)
+    | None => False
+    end.
+Proof. exact replica_history_example. Qed.
+
+(* Restart.  Open (db.go:481) reads the header, checkpoints whatever log it finds, recomputes every page checksum from the
+   database file ([open_recomputed]) and re-applies the newest transaction file [f], verifying the checksum it names.
+   From ANY state [s] - nothing is assumed about its caches - if Open succeeds then: the cache is the file's on every page
+   and empty beyond the database ([RB]), the position is [f]'s, and its checksum is the from-scratch checksum of the database
+   file.  Asked of [f]: page numbers from 1, no page twice, and a page it adds beyond the size the header names is among
+   its pages (C02_growth_is_captured for the files a primary writes). *)
+Theorem C04_open_recomputes : forall s f rest s',
+  1 <= lockpg s -> rev (ltxdir s) = f :: rest -> wf_ltx f ->
+  (forall x, pageN (open_recomputed s) < x <= l_commit f -> x <> lockpg s -> alookup x (l_pages f) <> None) ->
+  op_open s = (Done, s') ->
+  RB s' /\ lockpg s' = lockpg s /\ txid s' = l_max f /\ pageN s' = l_commit f /\ chk s' = l_post f /\
+  chk s' = scratch (fun p => if p =? lockpg s' then 0 else file_h s' p) (pageN s').
+Proof. exact open_checksum. Qed.
+Print Assumptions C04_open_recomputes.
+
+(* Non-vacuity: a restart right after a shrinking commit, before SQLite's truncate - the file still has 5 pages, the
+   database 3 *)
+Example C04_open_recomputes_nonvacuous :
+  let pg h n := mkPg (fl h) n false in
+  let hs := [HTx [] [AWrite 1 (pg 11 2); AWrite 2 (pg 12 0)] 2;
+             HTx [(3, pg 33 0); (4, pg 44 0)] [AWrite 1 (pg 21 5); AWrite 5 (pg 55 0)] 5;
+             HTx [] [AWrite 2 (pg 92 0); AWrite 1 (pg 31 3)] 3] in
+  exists s f rest, run_hsteps (init 2097153) hs = Some s /\
+    1 <= lockpg s /\ rev (ltxdir s) = f :: rest /\ wf_ltx f /\
+    (forall x, pageN (open_recomputed s) < x <= l_commit f -> x <> lockpg s -> alookup x (l_pages f) <> None) /\
+    match op_open s with
+    | (Done, s') => (lenN (dbfile s), txid s', pageN s', chk s' =? chk s, lenN (dbfile s'), chk s' =? fl (N.lxor (N.lxor 31 92) 33))
+                    = (5, 3, 3, true, 3, true)
+    | _ => False
+    end.
+Proof. exact open_checksum_example. Qed.
